@@ -185,9 +185,9 @@ PROPS = {
     "C16": dict(
         modules=["GraphSlam.Props.C16"],
         theorem_files=["GraphSlam/Props/Tie/GraphPy.lean", "GraphSlam/Props/C16/*.lean"],
-        scan_files=["GraphSlam/Generated/GraphPy.lean", "GraphSlam/Model/GraphIter.lean", "GraphSlam/Model/Run.lean", "GraphSlam/Model/Assembly.lean", "GraphSlam/Props/C04/*.lean", "GraphSlam/Props/C01/*.lean", "GraphSlam/Core/*.lean", "GraphSlam/Model/NumJac.lean", "GraphSlam/Real/Instance.lean"],
+        scan_files=["GraphSlam/Generated/GraphPy.lean", "GraphSlam/Model/GraphIter.lean", "GraphSlam/Model/Run.lean", "GraphSlam/Model/Assembly.lean", "GraphSlam/Props/C04/*.lean", "GraphSlam/Props/C01/*.lean", "GraphSlam/Core/*.lean", "GraphSlam/Model/NumJac.lean", "GraphSlam/Real/Instance.lean", "Driver/NumIter.lean"],
         graph_tie=True,
-        corr=[("harness.entry", "numjac", dict(quick=40, thorough=1500))],
+        corr=[("harness.entry", "numjac", dict(quick=40, thorough=1500)), ("harness.entry", "numiter", dict(quick=30, thorough=800))],
         search=("search.entry", "c16"),
         always_search=True,
         replay=("search.entry", "replay_generic"),
@@ -200,7 +200,7 @@ PROPS = {
         technique="Lean 4 proof: loop induction for the model of _calc_jacobian; mean-value inequality (Mathlib) for the forward-difference error bound; tied by bit-exact correspondence",
         level_text="Proved (Props/C16/*.lean): (a) fd_exact_of_affine / numJacobian_of_affine - a forward difference of an affine error is EXACT for any eps != 0; for the generated R^2/R^3 odometry and landmark errors (and the landmark vertex of SE(2)/SE(3) landmark edges) the numerically differentiated Jacobian IS the generated calc_jacobians_*; (b) custom_assembly_exact, numSystem_eq, numStep_eq, numOptimizeSolve_eq, num_optimize_linear_optimum_R2/_R3 - n-ary edges with affine errors give literally the same EdgeLin records, hence the same chi2, b, H, the same iteration and the same WHOLE CALL, which (C04) reaches the unique global minimiser: the second clause of C16 holds exactly for affine errors; (c) gradContrib_perturb, hessContrib_perturb, dense_gradient_perturb, dense_hessian_perturb, numSystem_perturb - Jacobians entrywise within delta give b, H within explicit polynomial bounds; (d) stationary_points_agree_coarse, numSystem_stationary - the numerical and the analytic iteration have the same stationary points up to C*delta; numLin_jacClose_of_C2 gives delta = M*eps; graph_SE2_perturb / graph_SE2_stationary discharge the C^2 hypothesis from the generated SE(2) code (explicit M). Also: for any error function over any number of vertices of any pose types, the model of _calc_jacobian returns shape err.shape+(dim,) with column d = (err(p [+] eps e_d) - err(p))/eps and restores the store; "
         "a forward difference of a C^2 function with |f''|<=M on [0,eps] is within M*eps of the derivative, hence each entry is within M*1e-6 of the true box-plus derivative. PARTIAL: the convergence clause is explored (twin graphs), not proved.",
-        level_note="Hand model tied by tools/harness/numjac.py (bitwise). Regenerated tie: the decision expressions / statement skeleton of graph.py and base_edge.py are re-translated every run (tools/translate/py2lean_graph.py -> Generated/GraphPy.lean) and Props/Tie/GraphPy.lean proves that the hand models use exactly them.",
+        level_note="Hand model tied by tools/harness/numjac.py (bitwise, one vertex of one edge) and tools/harness/numiter.py (the typed graph model numSystem / numStep of Props/C16/NumModel.lean run by the driver against optimize(max_iter=1) on graphs whose built-in edges are re-classed onto BaseEdge.calc_jacobians: chi2, b, H, updated estimates). Regenerated tie: the decision expressions / statement skeleton of graph.py and base_edge.py are re-translated every run (tools/translate/py2lean_graph.py -> Generated/GraphPy.lean) and Props/Tie/GraphPy.lean proves that the hand models use exactly them.",
     ),
     "C07": dict(
         modules=["GraphSlam.Props.C07"],
